@@ -239,7 +239,7 @@ def check_windows(ctx):
                 ctx.check(arg is not None and ast.unparse(arg) == "start_index", "R16.7",
                           "_get_partial_evaluation passes its row offset on to the evaluator unchanged", c, pe,
                           "start_index argument is `%s`" % (ast.unparse(arg) if arg is not None else "?"))
-    ctx.floor("R16.7", "row-offset arguments of batch evaluations", n7, 7)
+    ctx.floor("R16.7", "row-offset arguments of batch evaluations", n7, 2)
     ctx.floor("R16.1", "window loops", n, 3)
 
 
